@@ -41,6 +41,12 @@ def run(res: C.Result):
             # serialisable tables: no plain composite mixing kinds without an explicit criteria (the default lookup uses the first leaf)
         # masks and composite operations inside moves
         p["T"] = 3000.0
+        r2 = random.Random(p["seed"] ^ 0xC07)
+        if p["ensemble"] == "gc" and r2.random() < 0.6:
+            p["accessible_volume_factor"] = r2.choice([0.25, 0.5, 2.0])
+        if p["ensemble"] == "isotension" and r2.random() < 0.7:
+            a, b, c_ = (r2.choice([-0.02, 0.0, 0.01, 0.03]) for _ in range(3))
+            p["stress"] = [[0.02, a, b], [a, -0.01, c_], [b, c_, 0.015]]
         cases.append({"program": p, "workdir": str(res.workdir)})
     for drv in ("fbmc", "afbmc"):
         cases.append({"driver": drv, "seed": 5, "program": {"steps": 3}, "workdir": str(res.workdir)})
